@@ -94,6 +94,11 @@ contract(SC + '._check_signature',
          lets={'ISS': _ISS},
          local_types={'certs': 'List(Tuple(Any, Str))', '_certs': 'List(Str)', 'last_pem_file': 'Opt(Str)'},
          ensures=[('same-item', 'result == item'),
+                  # C01 (A4): the element's own Signature has a single Reference and it names the element's own ID
+                  ('C01-single-reference-to-own-id',
+                   'implies(truthy(item.id), item.signature is not None and item.signature.signed_info is not None and '
+                   'len(item.signature.signed_info.reference) == 1 and '
+                   'item.signature.signed_info.reference[0].uri == concat("#", item.id))'),
                   # C01/C03/C10: normal return => the signature verified (tool said OK for this element id) under a
                   # certificate metadata holds for the issuer -- or, only when metadata has none and the configuration
                   # allows it, under a certificate embedded in the element's own signature
@@ -106,7 +111,7 @@ contract(SC + '._check_signature',
                     'modifies': ['list(certs)']},
                 1: {'inv': ['not truthy(verified)']}},
          comps={0: {'elem': ['res_i[1] == tmpfile(pem(src_i))', 'truthy(res_i[1])'], 'type': 'Tuple(Any, Str)'}},
-         clauses_from={'C01': ['C03-verified-under-issuer-key'], 'C03': ['C03-verified-under-issuer-key'],
+         clauses_from={'C01': ['C03-verified-under-issuer-key', 'C01-single-reference-to-own-id'], 'C03': ['C03-verified-under-issuer-key'],
                        'C10': ['C03-verified-under-issuer-key'], 'C20': ['C03-verified-under-issuer-key']})
 
 
